@@ -10,11 +10,13 @@ Record case := {
   k_old2f : bool;               (* variant before commit da63d9a *)
   k_cfg : config;
   k_tpre : str; k_tsuf : str;   (* lookup_value_transform = add_prefix tpre, add_suffix tsuf *)
-  k_ttable : option (list (str * str));
+  k_ttable : option (list (str * bool * str));
                                 (* Some t: the chain may return non-str values; it is an oracle given as a table
-                                   raw value -> tagged result ("int:12", "list:['a', 'b']", "s:text") *)
+                                   raw value -> (true, tagged result "int:12", "list:['a', 'b']", "s:text")
+                                   or (false, _) when the chain raises for that value *)
   k_fs : list fs_row;           (* find_system table *)
-  k_gdraise : list str;         (* ids for which get_data raises *)
+  k_gdraise : list str;         (* ids for which get_data raises an Exception subclass *)
+  k_gdraise_base : list str;    (* ids for which get_data raises a BaseException subclass *)
   k_gdempty : list str;         (* ids whose data is the empty tree {} *)
   k_files : list str;           (* regular files that exist *)
   k_uri : str
@@ -41,22 +43,26 @@ Definition keys_of (tc : tcontext) : list str :=
    "<type name>:<repr>" ("s:<text>" for str), so that 12 and "12" differ. *)
 Definition TAG_S : str := bytes_of_string "s:".
 Definition TAG_MISSING : str := bytes_of_string "?no-oracle-answer".
-Fixpoint assoc_str (t : list (str * str)) (v : str) : option str :=
+Fixpoint assoc_str (t : list (str * bool * str)) (v : str) : option (bool * str) :=
   match t with
   | [] => None
-  | (a, b) :: r => if eqb_str v a then Some b else assoc_str r v
+  | (a, ok, b) :: r => if eqb_str v a then Some (ok, b) else assoc_str r v
   end.
-Definition transform_of (k : case) (v : str) : str :=
+Definition transform_of (k : case) (v : str) : option str :=
   match k_ttable k with
-  | None => TAG_S ++ k_tpre k ++ v ++ k_tsuf k
-  | Some t => match assoc_str t v with Some b => b | None => TAG_MISSING end
+  | None => Some (TAG_S ++ k_tpre k ++ v ++ k_tsuf k)
+  | Some t => match assoc_str t v with
+              | Some (true, b) => Some b
+              | Some (false, _) => None
+              | None => Some TAG_MISSING
+              end
   end.
 Definition fs_of (k : case) (p : str) : fsr :=
   if existsb (eqb_str p) (k_files k) then FsOpened [] else FsENOENT.
 
 Definition run_handle (k : case) (r : rp) (x : ctx) (req_uri : str) : hobs :=
   let '(log, _, res) := handle false (transform_of k) (table_find_system (k_fs k))
-                               (table_get_data (k_gdraise k) (k_gdempty k)) (fs_of k) (k_cfg k) r x in
+                               (table_get_data (k_gdraise k) (k_gdraise_base k) (k_gdempty k)) (fs_of k) (k_cfg k) r x in
   {| h_calls := log; h_class := class_of res;
      h_tc := match res with
              | RContent _ (Some tc) => Some (keys_of tc, t_id tc, t_data tc, req_uri)
@@ -184,13 +190,13 @@ Definition asObs (x : sx) : option obs :=
   | _ => None
   end.
 
-Definition decode_pair (x : sx) : option (str * str) :=
+Definition decode_pair (x : sx) : option (str * bool * str) :=
   match x with
-  | L [a; b] => obind (asStr a) (fun a => obind (asStr b) (fun b => Some (a, b)))
+  | L [a; ok; b] => obind (asStr a) (fun a => obind (asBool ok) (fun ok => obind (asStr b) (fun b => Some (a, ok, b))))
   | _ => None
   end.
 (* () = string chain (prefix/suffix), ((raw tagged) ...) wrapped in a one-element list = oracle table *)
-Definition decode_ttable (x : sx) : option (option (list (str * str))) :=
+Definition decode_ttable (x : sx) : option (option (list (str * bool * str))) :=
   match x with
   | L [] => Some None
   | L [L rows] => obind (omap decode_pair rows) (fun rows => Some (Some rows))
@@ -199,13 +205,14 @@ Definition decode_ttable (x : sx) : option (option (list (str * str))) :=
 
 Definition decode (x : sx) : option (case * obs) :=
   match x with
-  | L [tf; o2; cfg; B tpre; B tsuf; ttb; L fst; L gdr; L gde; L files; B uri; io] =>
+  | L [tf; o2; cfg; B tpre; B tsuf; ttb; L fst; L gdr; L gdb; L gde; L files; B uri; io] =>
       obind (asBool tf) (fun tf => obind (asBool o2) (fun o2 => obind (decode_config cfg) (fun cfg =>
       obind (decode_ttable ttb) (fun ttb =>
-      obind (omap decode_fs_row fst) (fun fst => obind (omap asStr gdr) (fun gdr => obind (omap asStr gde) (fun gde =>
+      obind (omap decode_fs_row fst) (fun fst => obind (omap asStr gdr) (fun gdr => obind (omap asStr gdb) (fun gdb => obind (omap asStr gde) (fun gde =>
       obind (omap asB files) (fun files => obind (asObs io) (fun io =>
       Some ({| k_tftp := tf; k_old2f := o2; k_cfg := cfg; k_tpre := tpre; k_tsuf := tsuf; k_ttable := ttb;
-               k_fs := fst; k_gdraise := gdr; k_gdempty := gde; k_files := files; k_uri := uri |}, io))))))))))
+               k_fs := fst; k_gdraise := gdr; k_gdraise_base := gdb; k_gdempty := gde; k_files := files; k_uri := uri |},
+            io)))))))))))
   | _ => None
   end.
 
